@@ -155,7 +155,7 @@ Ltac reify env t :=
   | _ => let i := index_of t env in constr:(EVar i)
   end.
 
-From TV Require Import ListNum Model_C01 Model_C02 Model_C04 Model_C06 Model_C12 Model_C17 Model_C19 Model_C20.
+From TV Require Import ListNum Model_C01 Model_C02 Model_C04 Model_C06 Model_C11 Model_C12 Model_C17 Model_C19 Model_C20.
 
 Section Trees.
   Context {T : Type} {N : TNum T} (a b c d e f g h i j : T).
@@ -446,3 +446,65 @@ Proof. intros Hd Hs Hm Hpos. unfold gauss_loglike. apply encl_sub.
     + apply encl_chisq; try assumption. eapply Forall_impl; [|exact Hpos]. cbn. intros a Ha. lra.
     + unfold n2. apply encl_ofZ.
     + unfold n2. cbn. lra. Qed.
+
+(* the angle quadrature of the emission model: 2 pi sum_i I_i(w) * (w_i / (1/mu_i)), for non-zero nodes *)
+Theorem flux_transfer IsI IsR muI muR wtI wtR w :
+  Forall2 encl_list IsI IsR -> encl_list muI muR -> encl_list wtI wtR -> Forall (fun mu => mu <> 0%R) muR ->
+  encloses (@flux _ IvTNum IsI muI wtI w) (@flux R RTNum IsR muR wtR w).
+Proof. intros HI Hmu Hwt Hnz. unfold flux. apply encl_mul; [apply encl_mul; [unfold n2; apply encl_ofZ|apply encl_pi]|].
+  apply encl_nsum.
+  revert muI muR Hmu Hnz wtI wtR Hwt. induction HI as [|iI iR IsI IsR Hi _ IH]; intros muI muR Hmu Hnz wtI wtR Hwt; cbn [map2]; [constructor|].
+  destruct Hmu as [|mI mR muI muR Hm Hmu]; cbn [combine map2]; [constructor|].
+  destruct Hwt as [|wI wR wtI wtR Hw Hwt]; cbn [combine map2]; [constructor|]. inversion Hnz; subst.
+  constructor; [|apply IH; assumption]. cbn [fst snd].
+  apply encl_mul; [apply encl_nth_d, Hi|]. apply encl_div; [exact Hw| |].
+  - apply encl_div; [apply (I.fromZ_correct prec 1)|exact Hm|assumption].
+  - cbn. unfold Rdiv. rewrite Rmult_1_l. apply Rinv_neq_0_compat. assumption. Qed.
+
+(* the hydrostatic recurrence (Model_C11.layers): no branch on a number, but divisions and a logarithm per layer;
+   [layers_def] lists what must hold on the real side for every layer *)
+Fixpoint layers_def (GM R0 k z Pj : R) (Pnext Ts ms : list R) : Prop :=
+  match Pnext, Ts, ms with
+  | P1 :: Prest, t :: Ts', m :: ms' =>
+      let g := (GM / ((R0 + z) * (R0 + z)))%R in
+      let H := (k * t / (m * g))%R in
+      let dz := (- (1) * H * ln (P1 / Pj))%R in
+      ((R0 + z) * (R0 + z) <> 0 /\ m * g <> 0 /\ Pj <> 0 /\ 0 < P1 / Pj)%R
+      /\ layers_def GM R0 k (z + dz)%R P1 Prest Ts' ms'
+  | _, _, _ => True
+  end.
+
+Definition encl_row (rI : I.type * I.type * I.type * I.type) (rR : R * R * R * R) : Prop :=
+  encloses (fst (fst (fst rI))) (fst (fst (fst rR))) /\ encloses (snd (fst (fst rI))) (snd (fst (fst rR)))
+  /\ encloses (snd (fst rI)) (snd (fst rR)) /\ encloses (snd rI) (snd rR).
+
+Theorem layers_transfer GMI GM RI R0 kI k :
+  encloses GMI GM -> encloses RI R0 -> encloses kI k ->
+  forall PnI PnR, encl_list PnI PnR -> forall TsI TsR, encl_list TsI TsR -> forall msI msR, encl_list msI msR ->
+  forall zI z PjI Pj, encloses zI z -> encloses PjI Pj -> layers_def GM R0 k z Pj PnR TsR msR ->
+  Forall2 encl_row (fst (@layers _ IvTNum GMI RI kI zI PjI PnI TsI msI)) (fst (@layers R RTNum GM R0 k z Pj PnR TsR msR))
+  /\ encloses (snd (@layers _ IvTNum GMI RI kI zI PjI PnI TsI msI)) (snd (@layers R RTNum GM R0 k z Pj PnR TsR msR)).
+Proof. intros HGM HR Hk PnI PnR HP. induction HP as [|P1I P1 PnI PnR HP1 HP IH]; intros TsI TsR HT msI msR Hm zI z PjI Pj Hz HPj Hdef.
+  - cbn [layers fst snd]. split; [constructor|exact Hz].
+  - destruct HT as [|tI t TsI TsR Ht HT]; [cbn [layers fst snd]; split; [constructor|exact Hz]|].
+    destruct Hm as [|mI m msI msR Hmm Hm]; [cbn [layers fst snd]; split; [constructor|exact Hz]|].
+    cbn [layers_def] in Hdef. destruct Hdef as [[Hd1 [Hd2 [Hd3 Hd4]]] Hrest].
+    cbn [layers].
+    match goal with |- context [@layers _ IvTNum GMI RI kI ?zn P1I PnI TsI msI] => set (zIn := zn) end.
+    match goal with |- context [@layers R RTNum GM R0 k ?zn P1 PnR TsR msR] => set (zRn := zn) end.
+    assert (Hg : encloses (@ndiv _ IvNum GMI (@nmul _ IvNum (@nadd _ IvNum RI zI) (@nadd _ IvNum RI zI)))
+                          (GM / ((R0 + z) * (R0 + z)))%R).
+    { apply encl_div; [exact HGM|apply encl_mul; apply encl_add; assumption|exact Hd1]. }
+    assert (HH : encloses (@ndiv _ IvNum (@nmul _ IvNum kI tI) (@nmul _ IvNum mI (@ndiv _ IvNum GMI (@nmul _ IvNum (@nadd _ IvNum RI zI) (@nadd _ IvNum RI zI)))))
+                          (k * t / (m * (GM / ((R0 + z) * (R0 + z)))))%R).
+    { apply encl_div; [apply encl_mul; assumption|apply encl_mul; assumption|exact Hd2]. }
+    assert (Hdz : encloses (@nmul _ IvNum (@nmul _ IvNum (@nopp _ IvNum (@n1 _ IvNum)) (@ndiv _ IvNum (@nmul _ IvNum kI tI) (@nmul _ IvNum mI (@ndiv _ IvNum GMI (@nmul _ IvNum (@nadd _ IvNum RI zI) (@nadd _ IvNum RI zI)))))) (@nln _ IvTNum (@ndiv _ IvNum P1I PjI)))
+                           (- (1) * (k * t / (m * (GM / ((R0 + z) * (R0 + z))))) * ln (P1 / Pj))%R).
+    { apply encl_mul; [apply encl_mul; [apply encl_opp, (I.fromZ_correct prec 1)|exact HH]|].
+      apply encl_ln; [apply encl_div; assumption|exact Hd4]. }
+    assert (Hzn : encloses zIn zRn) by (subst zIn zRn; apply encl_add; [exact Hz|exact Hdz]).
+    specialize (IH TsI TsR HT msI msR Hm zIn zRn P1I P1 Hzn HP1 Hrest).
+    destruct (@layers _ IvTNum GMI RI kI zIn P1I PnI TsI msI) as [rowsI zfI].
+    destruct (@layers R RTNum GM R0 k zRn P1 PnR TsR msR) as [rowsR zfR].
+    cbn [fst snd] in *. destruct IH as [IHr IHz]. split; [|exact IHz].
+    constructor; [|exact IHr]. unfold encl_row. cbn [fst snd]. repeat split; assumption. Qed.
